@@ -278,6 +278,9 @@ package eval
 //@ spec func stopsAt(env Env, c ast.ConditionType) bool = (hardErr(pE(env, c.Body)) && !errIs(pE(env, c.Body), errIgnore)) || (pE(env, c.Body) == nil && isNonBoolLit(pN(env, c.Body)))
 //@ spec func falsified(env Env, c ast.ConditionType) bool = pE(env, c.Body) == nil && isBoolLit(pN(env, c.Body), !c.Condition)
 //@ spec func ignoredUnder(env Env, c ast.ConditionType, forbid bool) bool = !errIs(pE(env, c.Body), errVariable) && errIs(pE(env, c.Body), errIgnore) && forbid
+// resOf: r is the residual form of condition c: same kind (when/unless), and the body is the
+// condition's own body (it depends on an unknown), its partially evaluated body, or an embedded error.
+//@ spec func resOf(env Env, c ast.ConditionType, r ast.ConditionType) bool = r.Condition == c.Condition && ((errIs(pE(env, c.Body), errVariable) && r.Body == c.Body) || (pE(env, c.Body) == nil && !(pN(env, c.Body) is ast.NodeValue) && r.Body == pN(env, c.Body)) || (hardErr(pE(env, c.Body)) && !errIs(pE(env, c.Body), errIgnore)) || (pE(env, c.Body) == nil && isNonBoolLit(pN(env, c.Body))))
 //@ func PartialPolicy
 //@   props C06
 //@   pure
@@ -286,11 +289,15 @@ package eval
 //@   ensures scope_drop: !(partialPrincipalScope#1(env, env.Principal, p.Principal) && partialActionScope#1(env, env.Action, p.Action) && partialResourceScope#1(env, env.Resource, p.Resource)) ==> !keep
 //@   ensures drop_reason: (!keep && partialPrincipalScope#1(env, env.Principal, p.Principal) && partialActionScope#1(env, env.Action, p.Action) && partialResourceScope#1(env, env.Resource, p.Resource)) ==> (exists j int :: 0 <= j && j < len(p.Conditions) && (forall j2 int :: (0 <= j2 && j2 < j) ==> !stopsAt(env, p.Conditions[j2])) && (falsified(env, p.Conditions[j]) || ignoredUnder(env, p.Conditions[j], !p.Effect)))
 //@   ensures kept_nonnil: keep ==> policy != nil
+//@   ensures residual_conditions: keep ==> (forall j int :: (0 <= j && j < len(policy.Conditions)) ==> (exists i int :: 0 <= i && i < len(p.Conditions) && resOf(env, p.Conditions[i], policy.Conditions[j])))
+//@   ensures residual_effect: keep ==> policy.Effect == p.Effect
 //@   ensures keep_reason: keep ==> (forall j int :: (0 <= j && j < len(p.Conditions) && (forall j2 int :: (0 <= j2 && j2 < j) ==> !stopsAt(env, p.Conditions[j2]))) ==> (!falsified(env, p.Conditions[j]) && !ignoredUnder(env, p.Conditions[j], !p.Effect)))
 //@   loop 1
 //@     invariant nostop: forall j int :: (0 <= j && j < $i) ==> !stopsAt(env, p.Conditions[j])
 //@     invariant nofalse: forall j int :: (0 <= j && j < $i) ==> !falsified(env, p.Conditions[j])
 //@     invariant noignore: forall j int :: (0 <= j && j < $i) ==> !ignoredUnder(env, p.Conditions[j], !p.Effect)
+//@     invariant residual: forall j int :: (0 <= j && j < len(p2.Conditions)) ==> (exists i int :: 0 <= i && i < $i && resOf(env, p.Conditions[i], p2.Conditions[j]))
+//@     invariant p2.Effect == p.Effect
 
 // foldPolicy works on a copy: the policy it is given (the one MarshalCedar,
 // MarshalJSON and AST() show) is left as it was, the scope and the effect are
